@@ -765,6 +765,50 @@ def regenerate_forward():
     return errors, changed
 
 
+# ======================================================================================= T-reset
+def generate_poolreset():
+    """Pool.run: which bookkeeping fields are re-initialised before the nested closures -> Gen/PoolReset.lean"""
+    sys.path.insert(0, str(REPO))
+    out = ['import PwVerif.Model.Pool', '/-! GENERATED by harness/translate.py (T-reset) from /repo - do not edit. -/', 'namespace PwVerif.Gen', 'open PwVerif.Pool', '']
+    errors = []
+    try:
+        c = getattr(importlib.import_module('pyworkers.pool'), 'Pool')
+        t = Translator(c)
+        run, path = t.func_ast('run')
+        outer = next(n for n in run.body if isinstance(n, ast.Try))
+        pro = []
+        for st in outer.body:
+            if isinstance(st, ast.FunctionDef):
+                break
+            pro.append(ast.unparse(st))
+        known = {
+            'depleted': r"self\._depleted = False",
+            'pending': r"self\._pending = 0",
+            'ppw': r"self\._pending_per_worker = \{worker\.id: \[\] for worker in self\.workers\}",
+            'retries': r"self\._retries = \[\]",
+            'ret': r"ret = \[\]",
+        }
+        flags = {k: any(re.fullmatch(rx, x) for x in pro) for k, rx in known.items()}
+        for x in pro:
+            if x != 'self._map_guard = True' and not any(re.fullmatch(rx, x) for rx in known.values()):
+                raise Untranslatable(f'{path.name}:{outer.lineno}: no pattern for `{x}` in the prologue of Pool.run')
+        b = lambda v: str(bool(v)).lower()  # noqa: E731
+        out.append(f'/-- what `Pool.run` ({path.name}:{run.lineno}) re-initialises on entry -/')
+        out.append('def poolReset : ResetCfg := { depleted := %s, pending := %s, ppw := %s, retries := %s, ret := %s }\n'
+                   % tuple(b(flags[k]) for k in ('depleted', 'pending', 'ppw', 'retries', 'ret')))
+    except Exception as e:
+        errors.append(f'poolreset: {type(e).__name__}: {e}')
+        out.append('def poolReset : ResetCfg := ⟨false, false, false, false, false⟩\n')
+    out.append('end PwVerif.Gen')
+    return '\n'.join(out) + '\n', errors
+
+
+def regenerate_poolreset():
+    text, errors = generate_poolreset()
+    changed = write_if_changed(LEAN / 'PwVerif' / 'Gen' / 'PoolReset.lean', text)
+    return errors, changed
+
+
 if __name__ == '__main__':
     errs, meta, changed = regenerate()
     print('RunLoops.lean', 'rewritten' if changed else 'unchanged')
@@ -780,7 +824,9 @@ if __name__ == '__main__':
     print('ShutdownPaths.lean', 'rewritten' if changed6 else 'unchanged')
     errs7, changed7 = regenerate_forward()
     print('Forward.lean', 'rewritten' if changed7 else 'unchanged')
-    errs2 = errs2 + errs3 + errs4 + errs5 + errs6 + errs7
+    errs8, changed8 = regenerate_poolreset()
+    print('PoolReset.lean', 'rewritten' if changed8 else 'unchanged')
+    errs2 = errs2 + errs3 + errs4 + errs5 + errs6 + errs7 + errs8
     for e in errs + errs2:
         print('UNTRANSLATABLE', e)
     sys.exit(1 if errs or errs2 else 0)
